@@ -23,8 +23,8 @@ ANCHOR_FILES = ["src/ropt/transforms/variable_scaler.py", "src/ropt/config/enopt
 RULE = ("case = one user-domain configuration + point + transform set; non-trivial if at least one scale differs from 1 or an offset from 0 and both runs produced results; "
         "distinct key = case index; monitor_counters: fields and evaluator rows compared")
 ASSUMPTIONS = ["scales are positive", "same seed and sampler give the same samples in both runs"]
-REQUIRED = {"quick": {"pairs": 600, "evaluator_rows_compared": 4000, "result_fields_compared": 6356, "constraint_info_fields_compared": 3000, "relative_perturbation_pairs": 100, "feasibility_points": 4800, "roundtrips": 600, "__nontrivial__": 600},
-            "thorough": {"pairs": 12000, "evaluator_rows_compared": 80000, "result_fields_compared": 127326, "constraint_info_fields_compared": 60000, "relative_perturbation_pairs": 2000, "feasibility_points": 96000, "roundtrips": 12000, "__nontrivial__": 12000}}
+REQUIRED = {"quick": {"pairs": 600, "evaluator_rows_compared": 4000, "result_fields_compared": 6356, "constraint_info_fields_compared": 3000, "relative_perturbation_pairs": 100, "initial_values_outside_bounds_cases": 120, "feasibility_points": 4800, "roundtrips": 600, "__nontrivial__": 600},
+            "thorough": {"pairs": 12000, "evaluator_rows_compared": 80000, "result_fields_compared": 127326, "constraint_info_fields_compared": 60000, "relative_perturbation_pairs": 2000, "initial_values_outside_bounds_cases": 2500, "feasibility_points": 96000, "roundtrips": 12000, "__nontrivial__": 12000}}
 N = {"quick": 1000, "thorough": 20000}
 RT = 1e-9
 
@@ -62,6 +62,14 @@ def run_case(case, obs):
     lb = np.where(rng.random(V) < 0.25, -np.inf, rng.uniform(-3, -0.5, size=V))
     ub = np.where(rng.random(V) < 0.25, np.inf, rng.uniform(0.5, 3, size=V))
     x = np.array([rng.uniform(max(l, -2), min(u, 2)) for l, u in zip(lb, ub)])
+    if rng.random() < 0.25:
+        # initial values outside the bounds are valid input (the violation is reported, nothing is repaired)
+        for k in range(V):
+            if rng.random() < 0.5 and np.isfinite(ub[k]):
+                x[k] = ub[k] + rng.uniform(0.1, 2.0)
+            elif rng.random() < 0.5 and np.isfinite(lb[k]):
+                x[k] = lb[k] - rng.uniform(0.1, 2.0)
+        obs.count("initial_values_outside_bounds_cases")
     finite = np.isfinite(lb) & np.isfinite(ub)
     ptypes = np.where(finite & (rng.random(V) < 0.5), 2, 1)
     mags = np.where(ptypes == 2, rng.uniform(0.01, 0.3, size=V), 10 ** rng.uniform(-3, -0.3, size=V))
